@@ -169,7 +169,8 @@ func dialClient(transport, network, addr string, pipe *sim.Conn) (*varlink.Conne
 }
 
 func (s *E2EScenario) Setup(k *sim.Kernel) {
-	svc, _ := buildService(s.Service, s.Scripts)
+	svc, regErrs := buildService(s.Service, s.Scripts)
+	reportRegErrs(k, s.Service, regErrs)
 	k.Spawn("serve", serveTask(svc, s.Service, context.Background()))
 	network, addr := splitAddr(s.Service.Address)
 	for ci, cl := range s.Clients {
@@ -759,6 +760,27 @@ func genE2E(g *Gen, prop string, params func() string, script func(more bool) Sc
 		}
 		for i := 1; i < len(s.Clients); i++ {
 			s.Clients[i].StartUs = g.IntN(3600e6)
+		}
+	}
+	// a "Quit" method: one handler asks the service to stop before it replies;
+	// accepted connections are served to their end all the same
+	if g.Pct(4) {
+		cids := make([]int, 0, len(s.Scripts))
+		for c := range s.Scripts {
+			if c > 0 {
+				cids = append(cids, c)
+			}
+		}
+		sortInts(cids)
+		if len(cids) > 0 && s.Service.TimeoutNs == 0 {
+			c := cids[g.IntN(len(cids))]
+			sc := s.Scripts[c]
+			sc.Actions = append([]Action{{Op: "shutdown"}}, sc.Actions...)
+			s.Scripts[c] = sc
+			// (everybody has to be connected by then)
+			for ci := range s.Clients {
+				s.Clients[ci].StartUs = 0
+			}
 		}
 	}
 	// pipelining: two or three calls outstanding on a connection (small messages
